@@ -42,6 +42,8 @@ enum Op {
     SkipBack(usize),
     ParseU8,
     ParseI8,
+    ParseU32,
+    ParseI64,
     ParseBool,
 }
 
@@ -81,6 +83,8 @@ const OPS: &[Op] = &[
     Op::SkipBack(3),
     Op::ParseU8,
     Op::ParseI8,
+    Op::ParseU32,
+    Op::ParseI64,
     Op::ParseBool,
 ];
 
@@ -133,6 +137,14 @@ fn apply<'a>(p: Parser<'a>, op: Op) -> Got<'a> {
             Err(e) => Got::Err(e),
         },
         Op::ParseI8 => match p.parse_i8() {
+            Ok((v, p)) => Got::Ok(p, Some(format!("{}", v))),
+            Err(e) => Got::Err(e),
+        },
+        Op::ParseU32 => match p.parse_u32() {
+            Ok((v, p)) => Got::Ok(p, Some(format!("{}", v))),
+            Err(e) => Got::Err(e),
+        },
+        Op::ParseI64 => match p.parse_i64() {
             Ok((v, p)) => Got::Ok(p, Some(format!("{}", v))),
             Err(e) => Got::Err(e),
         },
@@ -237,6 +249,14 @@ fn expect<'a>(rem: &'a str, op: Op) -> Expect<'a> {
         }
         Op::ParseI8 => {
             let r = ref_prefix::<i8>(rem, true);
+            Expect { ok: r.map(|(v, rest)| (rest, Some(format!("{}", v)))), exhausts: false }
+        }
+        Op::ParseU32 => {
+            let r = ref_prefix::<u32>(rem, false);
+            Expect { ok: r.map(|(v, rest)| (rest, Some(format!("{}", v)))), exhausts: false }
+        }
+        Op::ParseI64 => {
+            let r = ref_prefix::<i64>(rem, true);
             Expect { ok: r.map(|(v, rest)| (rest, Some(format!("{}", v)))), exhausts: false }
         }
         Op::ParseBool => {
@@ -526,9 +546,19 @@ pub fn run(cfg: &Cfg, c14: bool) -> (&'static str, Report, String, String) {
             dfs(r, &mut cx, p, false, cfg.by(1, 2, 3));
         }
     }));
+    // numbers: leading zeros, the neighbours of the digits in the code table, values around the u8/i8 limits
+    let nalpha = ["0", "1", "9", "-", ":", "25"];
+    let ns = strings_upto(&nalpha, cfg.by(1, 4, 5));
+    rep.merge(par_for(cfg, ns.len(), |i, r| {
+        for &base in bases {
+            let mut cx = Ctx { s: &ns[i], base, c14, hist: Vec::new() };
+            let p = if base == 0 { Parser::new(&ns[i]) } else { Parser::with_start_offset(&ns[i], base) };
+            dfs(r, &mut cx, p, false, cfg.by(1, 1, 2));
+        }
+    }));
     // long random histories
     let nrand = cfg.by(10, 20_000, 200_000);
-    let walpha = ["a", " ", ",", "ñ", "1", "-", "2", "\t", "個", "true", "0", ",,", "\u{ffff}", "\u{8000}", "\u{800}", "\u{10ffff}", "\u{80}", "\u{fffd}"];
+    let walpha = ["a", " ", ",", "ñ", "1", "-", "2", "\t", "個", "true", "0", "007", "0255", ":", "4294967296", ",,", "\u{ffff}", "\u{8000}", "\u{800}", "\u{10ffff}", "\u{80}", "\u{fffd}"];
     rep.merge(par_for(cfg, nrand, |i, r| {
         let mut rng = Rng::new(cfg.seed.wrapping_mul(999_983).wrapping_add(i as u64));
         let s = random_string(&mut rng, &walpha, if i % 8 == 7 { cfg.by(20, 120, 200) } else { cfg.by(8, 24, 24) });
